@@ -503,7 +503,7 @@ def str_replace(ctx, args, st):
     return g()
 
 
-@model(r'^(?:core::)?str::<impl str>::(split|splitn)::<&str>$')
+@model(r'^(?:core::)?str::<impl str>::(split|splitn|split_terminator)::<&str>$')
 def str_split(ctx, args, st):
     from .iters import mk_list_iter
     if 'splitn' in ctx.callee:
@@ -516,6 +516,8 @@ def str_split(ctx, args, st):
     if s.facts is not None or pat.facts is not None: raise Unsupported('split on abstract strings')
     def g():
         for s2, pieces in split_positions(ctx.ex, st, s.chars, pat.chars, n):
+            if 'split_terminator' in ctx.callee and pieces and len(pieces[-1]) == 0:
+                pieces = pieces[:-1]        # std: like split, but a trailing empty piece is skipped
             yield s2, 'ret', mk_list_iter([s2.ref(StrV(p, 'str')) for p in pieces])
     return g()
 
@@ -784,3 +786,20 @@ def str_trim_matches_closure(ctx, args, st):
             if yes: yield from go_r(s2, a, b - 1)
             else: yield s2, 'ret', s2.ref(StrV(s.chars[a:b], 'str'))
     return go_l(st, 0, len(s.chars))
+
+
+@model(r'^(?:core::)?str::<impl str>::is_char_boundary$')
+def str_is_char_boundary(ctx, args, st):
+    s = str_of(st, args[0]); idx = args[1]
+    if s.facts is not None: raise Unsupported('is_char_boundary on an abstract string')
+    def g():
+        for s1, lens in fix_lengths(ctx.ex, st, s):
+            total = sum(lens)
+            bounds = {0}; off = 0
+            for l in lens:
+                off += l; bounds.add(off)
+            c = idx.concrete()
+            outs = [(s1, c)] if c is not None else list(ctx.ex.concretize(s1, idx, 0, total + 2))
+            for s2, k in outs:
+                yield s2, 'ret', Bool(k is not None and k in bounds)
+    return g()
